@@ -3,5 +3,9 @@
 set -e
 cd "$(dirname "$0")"
 cp ../coq/Extract/model.ml ../coq/Extract/model.mli .
-ocamlfind ocamlopt -O2 -w -a -package str model.mli model.ml entries.ml driver.ml -o modelrun 2>&1 | grep -v "options -O2 is only relevant" || true
+rm -f modelrun
+EXTRA=""
+[ -f libm.ml ] && EXTRA="libm.ml"
+[ -f libm_stubs.c ] && EXTRA="libm_stubs.c $EXTRA"
+ocamlfind ocamlopt -O2 -w -a -package str model.mli model.ml $EXTRA entries.ml driver.ml -o modelrun 2>build.err || { cat build.err; exit 1; }
 test -x modelrun
